@@ -37,8 +37,8 @@ theorem verifyNode_ok (p : Params K) (pv : p.Valid) (sw : StrictWeak p.lt) :
         verifyNode p isRoot h n = some (a.1, b.1) := by
   have hl4 := pv.leaf4
   have hi4 := pv.inner4
-  have hlmin : 2 ≤ p.leafMin := by simp [Params.leafMin]; omega
-  have himin : 2 ≤ p.innerMin := by simp [Params.innerMin]; omega
+  have hlmin : 2 ≤ p.leafMin := by simp [Params.leafMin, Gen.leafSlotmin]; omega
+  have himin : 2 ≤ p.innerMin := by simp [Params.innerMin, Gen.innerSlotmin]; omega
   intro h
   induction h with
   | zero =>
